@@ -340,6 +340,9 @@ def judge_identity(case) -> Verdict:
     def ids(x):
         out = {"self": (x.uuid, id(x.note))}
         if isinstance(x, (C.Acl, C.AceGroup)):
+            if not getattr(x, "group_by", ""):
+                # explicit blocks (blocks derived from remarks by group_by are recomputed by design: not claimed)
+                out["blocks"] = sorted((y.uuid, id(y.note)) for y in x.items if isinstance(y, C.AceGroup))
             out["items"] = sorted((y.uuid, id(y.note)) for y in A.flat_items(x.items))
             out["members"] = sorted((m.uuid, id(m.note)) for y in A.flat_items(x.items) if isinstance(y, C.Ace)
                                     for ad in (y.srcaddr, y.dstaddr) for m in ad.items)
@@ -371,6 +374,18 @@ def judge_identity(case) -> Verdict:
                 o.protocol_nr = not o.protocol_nr
             elif name == "resequence" and hasattr(o, "resequence") and getattr(o, "items", None) and not _has_empty_block(o):
                 o.resequence(op[1] % 50 + 1, op[2] % 9 + 1)
+            elif name == "resequence-overflow" and hasattr(o, "resequence") and len(getattr(o, "items", None) or []) >= 2 \
+                    and not _has_empty_block(o):
+                # arguments that are legal one by one but run past 4294967295: refused, and nothing is replaced
+                try:
+                    o.resequence(4294967295 - op[1] % 3, op[2] % 9 + 1)
+                    continue
+                except ValueError:
+                    pass
+            elif name == "platform-asa" and hasattr(o, "platform") and kind in ("acl", "acegroup", "ace", "remark"):
+                if multi:
+                    continue
+                o.platform = "asa" if o.platform != "asa" else spec.get("platform", "ios")
             elif name == "sort" and isinstance(o, (C.Acl, C.AceGroup)):
                 o.sort()
             elif name == "reverse" and isinstance(o, (C.Acl, C.AceGroup)):
@@ -382,13 +397,15 @@ def judge_identity(case) -> Verdict:
             else:
                 continue
         except ValueError as ex:
-            if name == "platform":
+            if name in ("platform", "platform-asa"):
                 continue
             raise
         done.append(name)
         got = ids(o)
-        if got != want:
-            part = next(k for k in want if got.get(k) != want[k])
+        if name in ("group", "ungroup"):
+            want.pop("blocks", None)  # blocks are made / dissolved by these two: only the entries are claimed
+        if any(k in got and got[k] != want[k] for k in want):
+            part = next(k for k in want if k in got and got[k] != want[k])
             v.fail(f"identity:{kind}:{name}:{part}-uuid-or-note-changed", {"kind": kind, "ops": done, "line": o.line[:500]})
             return v
     v.nt(len(done) >= 2)
@@ -483,7 +500,7 @@ def identity_case_st(draw, tier):
     ops = []
     for _ in range(draw(st.integers(1, 6))):
         name = draw(st.sampled_from(["platform", "platform", "type", "port_nr", "protocol_nr", "resequence", "sort",
-                                     "reverse", "group", "ungroup"]))
+                                     "reverse", "group", "ungroup", "resequence-overflow", "platform-asa"]))
         ops.append([name, draw(st.integers(0, 99)), draw(st.integers(0, 99))])
     return {"obj": draw(obj_st()), "ops": ops}
 
